@@ -6,6 +6,7 @@ correspondence: real Program.from_source on EEMS 2.0 / mixed files vs the model'
 oracles:        every mapped name resolves to an existing command in both library sets (known finding: the two ScoreRange rows); an EEMS 2.0 file and
                 the MPilot file written by hand from the mapping rule load to the same program and compute identical results
 """
+import json
 import os
 
 import numpy
@@ -122,9 +123,77 @@ def structure(p):
     return [(n, type(c).__name__, [(a.name, prog.canon_raw(raw_value(a.value))) for a in c.arguments]) for n, c in p.commands.items()]
 
 
+HASH_SCRIPT = '''
+import json, os, tempfile
+from mpilot.program import Program
+from mpilot.commands import Command
+from mpilot import params
+
+
+class Dif(Command):
+    """a user command whose name differs from an EEMS 2.0 name only in the case of its letters"""
+    inputs = {"X": params.ResultParameter(params.DataParameter())}
+    output = params.DataParameter()
+
+    def execute(self, **kw):
+        return abs(kw["X"].result)
+
+
+class Max(Command):
+    inputs = {"X": params.ResultParameter(params.DataParameter())}
+    output = params.DataParameter()
+
+    def execute(self, **kw):
+        return kw["X"].result
+
+d = tempfile.mkdtemp()
+open(os.path.join(d, "t.csv"), "w").write("Elev,a" + chr(10) + "1,-2" + chr(10) + "3,4" + chr(10))
+LIBS = ("mpilot.libraries.eems.basic", "mpilot.libraries.eems.csv", "mpilot.libraries.eems.fuzzy", "__main__")
+TEXTS = [
+    'READ(InFileName = "t.csv", InFieldName = Elev)' + chr(10) + 'CVTTOFUZZY(InFieldName = Elev, NewFieldName = FzElev, TrueThreshold = 2, FalseThreshold = 0)' + chr(10) +
+    'COPYFIELD(InFieldName = FzElev, NewFieldName = Again)' + chr(10) + 'NOT(NewFieldName = NotElev, InFieldName = FzElev)' + chr(10),
+    'READ(InFileName = "t.csv", InFieldName = a)' + chr(10) + 'd = Dif(X = a)' + chr(10) + 'm = Max(X = a)' + chr(10) + 's = Sum(InFieldNames = [d, m])' + chr(10),
+]
+out = []
+for t in TEXTS:
+    try:
+        p = Program.from_source(t, libraries=LIBS, working_dir=d)
+        p.run()
+        out.append([[n, type(c).__module__.split(".")[-1] + "." + type(c).__name__, sorted(a.name for a in c.arguments)] for n, c in p.commands.items()] +
+                   [[n, [float(x) for x in c.result.tolist()]] for n, c in p.commands.items() if hasattr(c.result, "tolist")])
+    except Exception as e:
+        out.append("raised %s: %s" % (type(e).__name__, str(e)[:120]))
+print(json.dumps(out))
+'''
+
+HASH_WANT = [
+    [["Elev", "io.EEMSRead", ["InFieldName", "InFileName"]], ["FzElev", "fuzzy.CvtToFuzzy", ["FalseThreshold", "InFieldName", "TrueThreshold"]], ["Again", "basic.Copy", ["InFieldName"]],
+     ["NotElev", "fuzzy.FuzzyNot", ["InFieldName"]], ["Elev", [1.0, 3.0]], ["FzElev", [0.0, 1.0]], ["Again", [0.0, 1.0]], ["NotElev", [-0.0, -1.0]]],
+    [["a", "io.EEMSRead", ["InFieldName", "InFileName"]], ["d", "__main__.Dif", ["X"]], ["m", "__main__.Max", ["X"]], ["s", "basic.Sum", ["InFieldNames"]],
+     ["a", [-2.0, 4.0]], ["d", [2.0, 4.0]], ["m", [-2.0, 4.0]], ["s", [0.0, 8.0]]],
+]
+
+
+def hash_seeds(ctx):
+    """an EEMS 2.0 file whose commands carry both a new field name and an input field name, and a mixed file that uses commands of a user library named like
+    EEMS 2.0 commands but for the case of their letters, under eight hash seeds (fresh interpreters): the same program - result names, command classes,
+    arguments, results - every time"""
+    for sd, val, err in common.hash_sweep(HASH_SCRIPT):
+        ctx.count("hash_seed_runs")
+        ctx.case("hash-seed %d" % sd, sample=None)
+        if val is None:
+            ctx.fail("loading EEMS 2.0 files under PYTHONHASHSEED=%d crashed: %s" % (sd, err[-200:]), {"hash_seed": sd})
+            continue
+        for k, (got, want) in enumerate(zip(val, HASH_WANT)):
+            if got != want:
+                ctx.fail("under PYTHONHASHSEED=%d %s loads / runs as %s; the mapping rule gives %s" % (
+                    sd, "an EEMS 2.0 file" if k == 0 else "a mixed file using a user library's Dif and Max commands", json.dumps(got)[:300], json.dumps(want)[:300]), {"hash_seed": sd, "file_no": k})
+
+
 def run(ctx):
     # the tables are regenerated from the source inside check_proofs; a broken table obligation is searched for a failing input below
     ok = ctx.check_proofs(["MPilot.Props.C16"])
+    hash_seeds(ctx)
     model = common.Model()
     rng = ctx.rng
     from mpilot.program import Program, EEMS_CSV_LIBRARIES, EEMS_NETCDF_LIBRARIES
